@@ -13,6 +13,10 @@ def run(chk):
     sv.judge(chk, "C36", cases, None, lambda c: "%s/gap=%d" % (c["label"], c["gap_ms"]),
              lambda tr: tr[0]["gap_ms"] > tr[0]["idle_timeout_ms"])
     sv.design(chk, "IdleRelease", ["design_short", "design_long"], {})
+    # the whole in-process stack around one run (ServerStack.tla; the same spec every recorded execution above was validated
+    # against): all its invariants and action properties on the intended design, the release-only-when-idle property
+    # violated by the model of the code as it is (recorded findings)
+    sv.design(chk, "ServerStack", [chk.pick("design_quick", "design")], {})
     # the DBOS stack: lifecycle lock (Lifecycle.tla) and DBOSIdleReleaseDecorator (DbosIdleRelease.tla)
     from harness.checks import _dbos_idle
     _dbos_idle.run_c36_part(chk)
